@@ -163,7 +163,7 @@ StepPred(name, wp, e, w2, hp, r) ==
     [] name = "P02_NoOverdraft" -> P02_NoOverdraft(wp, e, w2, hp, r) [] name = "P03_Authority" -> P03_Authority(wp, e, w2, hp, r)
     [] name = "P04_Immobile" -> P04_Immobile(wp, e, w2, hp, r) [] name = "P04_NoCreditWhilePaused" -> P04_NoCreditWhilePaused(wp, e, w2, hp, r)
     [] name = "P04_FlagOnly" -> P04_FlagOnly(wp, e, w2, hp, r) [] name = "P05_Protected" -> P05_Protected(wp, e, w2, hp, r)
-    [] name = "P05_KVExact" -> P05_KVExact(wp, e, w2, hp, r) [] name = "P05_Frame" -> P05_Frame(wp, e, w2, hp, r)
+    [] name = "P05_KVExact" -> P05_KVExact(wp, e, w2, hp, r, r) [] name = "P05_Frame" -> P05_Frame(wp, e, w2, hp, r)
     [] name = "P06_NoGasCreated" -> P06_NoGasCreated(wp, e, w2, hp, r) [] name = "P07_ReturnedNonce" -> P07_ReturnedNonce(wp, e, w2, hp, r)
     [] name = "P07_CtrOnlyByCreate" -> P07_CtrOnlyByCreate(wp, e, w2, hp, r) [] name = "P08_Create" -> P08_Create(wp, e, w2, hp, r)
     [] name = "P08_OnlyUriAttr" -> P08_OnlyUriAttr(wp, e, w2, hp, r) [] name = "P08_WrongHash" -> P08_WrongHash(wp, e, w2, hp, r)
